@@ -19,6 +19,10 @@ Inductive case :=
              (attempts : nat) (bodies : list N) (gaps : list Z) (err : N) (elapsed_ns : Z)
 (** One export of a concurrent burst (HTTP exporters, with or without gzip): [decoded] = hash of the
     decompressed body of each attempt (0 when it does not decompress), [own] = it decodes to this export's payload. *)
+(** Shutdown(ctx already cancelled: variant 0 / expiring after 1 ms: variant 1) during a retry loop; see
+    [Spec.shutdown_expired_ok].  [before]: requests seen before Shutdown was called. *)
+| CShutdownExpired (exporter variant : N) (before : nat) (shutdown_returned export_returned : bool)
+                   (export_err : N) (late_requests : nat) (later_err : N)
 | CBurst (exporter : N) (gzip : bool) (attempts : nat) (decoded : list N) (own : list bool) (err handled : N).
 
 Definition flag (b : bool) (code : N) : list N := if b then [] else [code].
@@ -68,6 +72,8 @@ Definition check_case (c : case) : list N :=
             then [V_KNOWN 1] else [V_SPECFAIL])
   | CThrottled exporter max_ns min_delay_ns delays attempts bodies gaps err elapsed_ns =>
       flag (throttled_ok max_ns min_delay_ns delays attempts bodies gaps err elapsed_ns) V_SPECFAIL
+  | CShutdownExpired exporter variant before sret eret eerr late later =>
+      flag (shutdown_expired_ok sret eret eerr late later) V_SPECFAIL
   | CBurst exporter gzip attempts decoded own err handled =>
       let m := model_run true 0 None [RespHttp 503 None false; RespHttp 200 None false] in
       flag (Nat.eqb (Types.attempts m) attempts && (class_of_result (res m) =? err)%N &&
